@@ -592,7 +592,12 @@ def check_get_cookie(P, R):
         modes = set()
         for c in [x for x in walk_shallow(fn.node) if isinstance(x, ast.Call) and dotted(x.func) == sink_name]:
             ns_ = fn.cfg.node_of_stmt(c)
-            for (e_, holds_, _t) in (T.guard_atoms(fn, ns_[0]) if ns_ else []):
+            atoms_ = list(T.guard_atoms(fn, ns_[0]) if ns_ else [])
+            # `signed = bool(secret and value); if signed:` - the flag's expression, conjunct by conjunct
+            for (e_, holds_, _t) in list(atoms_):
+                if holds_ and isinstance(e_, ast.Call) and dotted(e_.func) == 'bool' and len(e_.args) == 1:
+                    atoms_ += [(x_, True, _t) for x_ in bool_operands(e_.args[0], ast.And)]
+            for (e_, holds_, _t) in atoms_:
                 if isinstance(e_, ast.Name) and e_.id == 'secret' and holds_:
                     modes.add('truthy')
                 cp_ = compare_parts(e_)
